@@ -4,6 +4,7 @@ import json, os
 V = '/verif'
 props = [json.loads(l) for l in open(f'{V}/properties.jsonl')]
 TEXT = {
+ 'C08': "Coq theorems (Props/C08.v, closed): for every record (any |REF|, |ALT|, anchored or not, padded) whose REF matches the template, the variant imported by the model of CustomVariant.from_record_with_id / VcfVariant.normalise, applied by the model of Seq.alter, yields the template with REF replaced by ALT at POS; pure insertions/deletions are reported one to the right without the anchor and every other record as given; the constant-region flag computed from the constant regions equals 'start outside regions 1-3' (via the C18 tiling chain). Tied to the code by an exhaustive S-api sweep over all records with alleles of length <=4 over {A,C} at POS 1/2/5 and by random runs with every record kind in 1-3 manifest entries (exact custom row set, oligo, in_const, ref column; each row re-evaluated through the model). POS = 1 records, upper-casing and pysam parsing are exercised by the correspondence only (partial). Background-variant interaction is covered under C06.",
  'C17': "Coq theorems (Props/C17.v, closed): the default table, re-read from /repo's CSV into Generated/DefaultTable.v on every run, translates each of the 64 codons as the standard genetic code on both strands (finite check lifted by forallb_forall); for any table the codon chosen for an amino acid has the minimal rank and SNVRE's fallback is second in rank; synonymous sets are exact; all lookups are invariant under permutation of the rows (distinct codons, distinct ranks per amino acid); minus-strand lookups are reverse complements of plus-strand lookups; accepted loader rows have the documented shape. Tied to CodonTable/codon_table_loader by S-api comparison of ~200 lookups per table on random tables (incl. ties, duplicates, missing codons, rows sorted by codon) and malformed rows, and by file-level runs with shuffled and malformed custom tables. float() and int() grammars are run for real, not modelled (partial).",
  'C05': "Coq theorems (Props/C05.v, all closed) over a literal model of genomic_position_offsets.py / seq_converter.py: apply_variants = splice and |ALT| = |REF| + net inserted bases; from_var_stats accepts every sorted non-overlapping SNV/MNV/insertion/deletion set and its offsets tables and mask arrays compute the specification r2a/a2r/touches (refinement theorems); r2a and a2r are mutual inverses, strictly order-preserving in both directions, None exactly on deleted/inserted bases, identity before the context; the REF-variant overlap test is exact. Tied to the code by an exhaustive small-scope sweep comparing the full table of lookups (incl. nearest-before/after, range lifting with and without shrink, both overlap tests, refusals) with the model under vm_compute, plus apply_variants on random and ill-formed inputs. Nearest/range-lift/ALT-overlap lookups are covered by the correspondence and the independent cell-list oracle, not yet by theorems (partial); the single-base ALT overlap at an insertion point is a recorded known finding.",
  'C02': "Coq theorems (Props/C02.v, closed under the global context) that the model of IntPatternBuilder.build / Seq.subseq_window / DeletionMutator / SnvMutator emits exactly one full-length deletion per fitting window and exactly the 3 SNVs per base, for every region length, span and offset; the model is tied to the code by an exhaustive S-api sweep and by random SGE/cDNA runs compared row by row through vm_compute, and an independent spec oracle is applied to the implementation's rows to produce failing inputs.",
